@@ -271,8 +271,11 @@ class Aggregation:
                         if not (isinstance(e, ast.Name) and env.get(e.id, V("")).kind == "dim"):
                             self.bad(st, "extents that are not dimensions of the cost volume")
                         dims.append(env[e.id])
+                    if hasattr(self, "agg_name") and self.agg_name != tgt.id:
+                        self.bad(st, "a second zero-initialised volume")
                     env[tgt.id] = V("agg", dims=dims)
                     self.agg_name = tgt.id
+                    self.init_ops = []  # a fresh array of zeros: whatever was accumulated before is gone
                     return
                 # a scalar local
                 try:
@@ -328,7 +331,7 @@ class Aggregation:
         nd = self.env.get(st.iter.args[0].id, V(""))
         if not (nd.kind == "dim" and nd.axis == 2):
             self.bad(st, "the loop does not run over the disparity axis of the cost volume")
-        if not hasattr(self, "agg_name") or [d.axis for d in self.env[self.agg_name].dims] != [2, 1, 0] or len(self.init_ops) == 0:
+        if not hasattr(self, "agg_name") or [d.axis for d in self.env[self.agg_name].dims] != [2, 1, 0]:
             self.bad(st, "`agg` is not the (disp, col, row) volume")
         self.dsp = st.target.id
         P = self.plane
